@@ -18,7 +18,7 @@ checks); the flusher publishes record.sector before dropping the in-memory value
 resolve_record_value answer `None` (re-resolve) and resolve_value retries a bounded number of times from a fresh index
 read; only the reviewed functions call read_sectors_sync. Not decided: which value a racing read returns.
 """
-DECIDED = ["pin -> load sector -> pread under the pin -> identity check before use", "reader count protocol (retired bit, CAS, Drop)",
+DECIDED = ['retirement marks and frees exactly the blocks the generation was allocated (shared with C05.len)', "pin -> load sector -> pread under the pin -> identity check before use", "reader count protocol (retired bit, CAS, Drop)",
            "retirement waits for readers", "publish sector before clearing the value", "stale reads re-resolve, bounded",
            "a range scan re-resolves a stale handle by the entry's own key and from the entry's own slot",
            'acquire_extent tests the retired bit on the value each compare-exchange attempt is based on; no refusal after an installed change of the reader count']
@@ -67,8 +67,7 @@ def check_reader_count(ctx, inst):
             ctx.check(a.get("k") == "const" and a.get("val") == 1, inst, "PIN", b.path, "by exactly one", b.where(f))
 
 
-def check_pin(ctx):
-    inst = "C08.pin"
+def check_pin(ctx, inst="C08.pin"):
     g = L.lock_graph(ctx.prog)
     for fn in ("FeoxStore::load_value_from_disk", "write_buffer::prepare_deferred_record_data"):
         b = ctx.fn(fn, inst)
@@ -278,7 +277,15 @@ def check_range_resolve(ctx):
     C14.check_range_resolution(ctx, "C08.range-resolve")
 
 
+def check_extent_len(ctx):
+    """retirement must mark and free exactly the blocks the generation was allocated: an extent length that differs between the
+    allocator and the retirement side overwrites the head block of the neighbouring live key under its readers (C05.len)"""
+    from rules import C05
+    C05.check_len(ctx, "C08.extent-len")
+
+
 def check(ctx):
+    check_extent_len(ctx)
     check_range_resolve(ctx)
     check_acquire(ctx)
     check_successor(ctx)
